@@ -515,6 +515,11 @@ fn run_devices() -> Value {
 fn dispatch(j: &Value) -> Value {
     match s(j, "k").as_str() {
         "str" => {
+            // "cwd": the working directory of the process at the time of this build
+            let cwd = s(j, "cwd");
+            if !cwd.is_empty() && std::env::set_current_dir(&cwd).is_err() {
+                return json!({"r": "tool", "text": format!("cannot chdir {:?}", cwd)});
+            }
             if j.get("nohex").and_then(|v| v.as_bool()).unwrap_or(false) {
                 run_str_lens(&s(j, "src"))
             } else {
